@@ -706,6 +706,9 @@ func (r rnd) nameAgg(c *absCmd) (string, []string) {
 	toml := c.Via == "toml"
 	outFmt := r.nameRepl(c.Val, nr.groups, toml)
 	fun := r.pick(funs)
+	if fun == "derive" { // needs two points of different seconds in one bucket: never flushes anything with interval 1
+		fun = "delta"
+	}
 	cache := r.pick([]string{"", "true", "false"})
 	// interval 1s, wait 1s: a point stamped "now" is flushed at the next whole second
 	if !toml {
